@@ -88,7 +88,7 @@ def judge(chk, sc, step):
     nt = False
     # a generation that fails (one build reports an error) may still have dumped the builds configured before it, in parallel:
     # nothing is spawned then, and the task oracles below do not apply
-    gen_failed = rc == 1 and not sp and re.search(r'laze: error: builder "[^"]*": binary "[^"]*":', step.get("stderr") or "") is not None
+    gen_failed = rc == 1 and not sp and re.search(r'laze: error: builder "[^"]*": binary "[^"]*":|would be produced by more than one build statement', step.get("stderr") or "") is not None
     if gen_failed:
         chk.count("generation-failed")
         if m is not None and "ok" in m:
